@@ -430,12 +430,14 @@ class Facts:
                         return ("farkas", [(l, repr(cands[i])) for i, l in zip(combo, lam)])
         return None
 
-    def sign_known(self, q, depth=0):
+    def sign_known(self, q, depth=0, use_eq=False):
         """q >= 0 by a cheap argument: entailed linearly, or q = x * r + rest with x a non-negative atom, r entailed
         non-negative and rest non-negative by the same argument (e.g. width * (clipped.y - full.y) + (clipped.x - full.x))"""
         if q.const_value() is not None:
             return q.const_value() >= 0
         if self.entails_ge0(q, 2, 1) is not None:
+            return True
+        if use_eq and self.entails_ge0(q, 3, 1, use_eq=True) is not None:
             return True
         if depth > 2:
             return False
@@ -452,9 +454,60 @@ class Facts:
                 continue
             r = Poly({tuple(a for a in m if a is not x and a != x): c for m, c in with_x.items()})
             rest = Poly({m: c for m, c in q.terms.items() if x not in m})
-            if self.entails_ge0(r, 2, 1) is not None and self.sign_known(rest, depth + 1):
+            if (self.entails_ge0(r, 2, 1) is not None or
+                    (use_eq and self.entails_ge0(r, 3, 1, use_eq=True) is not None)) and \
+                    self.sign_known(rest, depth + 1, use_eq):
                 return True
         return False
+
+    def entails_ge0_prod(self, p, depth=0):
+        """p >= 0 through one product step: p, or p minus one path fact, is a sum of products of non-negative
+        factors (sign_known) - e.g. len - N*count from len - N*div(len,N) >= 0 and count <= div(len,N). Path
+        equalities are eliminated first; comparison atoms inside p or the related facts (min / if-then-else values)
+        are decided by a case split (at most two)."""
+        p = self.simplify(p)
+        m, lin = self.eq_elimination()
+        if m:
+            p = p.subst(m)
+        else:
+            lin = self.lin
+        if self.sign_known(p, use_eq=True):
+            return True
+        pat = p.atoms()
+        seen = set()
+        rel = []
+        for f in lin:
+            if (f.atoms() & pat) and f.key() not in seen:
+                seen.add(f.key())
+                rel.append(self.simplify(f))
+        if p.is_linear() and all(f.is_linear() for f in rel):
+            return False        # nothing a product step could add to the linear (Farkas) entailment
+        if len(p.terms) > 10 or len(pat) > 8:
+            return False        # (bit-sliced / if-then-else heavy goals: not the shape this step is for)
+        rel = [f for f in rel if len(f.terms) <= 10]
+        for f in rel[:24]:
+            if self.sign_known(p - f, use_eq=True):
+                return True
+        small = [f for f in rel if not f.is_linear()][:6] + [f for f in rel if f.is_linear()][:6]
+        for i_ in range(len(small)):
+            for j_ in range(i_ + 1, len(small)):
+                if self.sign_known(p - small[i_] - small[j_], use_eq=True):
+                    return True
+        if depth >= 1:
+            return False
+        cand = set(a for a in pat if is_bool_atom(a) and a[0] in ("ge", "eq"))
+        for f in rel:
+            cand |= set(a for a in f.atoms() if is_bool_atom(a) and a[0] in ("ge", "eq") and a not in self.known)
+        ats = sorted(cand, key=repr)
+        if not ats or len(ats) > 2:
+            return False
+        for combo in itertools.product((0, 1), repeat=len(ats)):
+            f2 = self.copy()
+            if not all(f2.assume(Poly.atom(a), v) for a, v in zip(ats, combo)):
+                continue
+            if not f2.entails_ge0_prod(p, depth + 1):
+                return False
+        return True
 
     def entails_ge0_split(self, p, max_facts=2, max_coeff=2, use_eq=False):
         """entails_ge0 with a case split over (at most two) comparison atoms that occur inside p - the shape of
@@ -498,6 +551,14 @@ class Facts:
         if a is not None and a[0] == "eq" and not neg:
             q = atom_pred_poly(a)
             return self.entails_ge0(q - 1, 2, 2) is not None or self.entails_ge0(-q - 1, 2, 2) is not None
+        if a is not None and a[0] == "eq" and neg:
+            # "q != 0" is impossible when q == 0 is entailed
+            q = atom_pred_poly(a)
+            # (cheap version: this sits on the path of every equality branch)
+            qs = self.simplify(q)
+            if not any(f.atoms() & qs.atoms() for f in self.lin[-40:]):
+                return False
+            return self.entails_ge0(qs, 1, 1) is not None and self.entails_ge0(-qs, 1, 1) is not None
         if a is not None:
             return False
         # small boolean combination (e.g. the disjunction of two overflow conditions): p is
